@@ -990,11 +990,10 @@ Examples:
                 fixed = re.sub(name, 'x[' + str(i) + ']', fixed)
             constraint = fixed.strip()
 
-            # Replace 'spread', 'mean', 'variance', 'product' (uses numpy, not mystic)
+            # Replace 'spread', 'mean', and 'variance' (uses numpy, not mystic)
             constraint = re.sub(_name % 'spread' + r'\(', 'ptp(', constraint)
             constraint = re.sub(_name % 'mean' + r'\(', 'average(', constraint)
             constraint = re.sub(_name % 'variance' + r'\(', 'var(', constraint)
-            constraint = re.sub(_name % 'product' + r'\(', 'prod(', constraint)
 
             # Sorting into equality and inequality constraints, and making all
             # inequality constraints in the form expression <= 0. and all 
@@ -1152,9 +1151,11 @@ Examples:
             if len(split) == 1: # didn't contain '>', '<', '!=', or '='
                 print("Invalid constraint: %s" % constraint)
             eqn = {'lhs':split[0].rstrip('=').strip(), \
-                   'rhs':'(%s)' % split[-1].lstrip('=').strip()}
+                   'rhs':split[-1].lstrip('=').strip()}
             # get list of LHS,RHS that != forces not to appear
             eqn['neq'] = '[' + ','.join(j for (i,j) in zip(xLHS+xRHS,xRHS+xLHS) if eqn['lhs'] == i) + ']'
+            if eps or eta: # the bound is one operand of the sum
+                eqn['rhs'] = '(%s)' % eqn['rhs']
             eqn['rhs'] += eps.replace('e_', '_tol(%(rhs)s,tol,rel)' % eqn) \
                           or eta % eqn
             expression = "=".join(_process_expression(expression % eqn))
@@ -1223,6 +1224,7 @@ Examples:
     code = """from math import *; from numpy import *;"""
     code += """from builtins import *;""" # don't overload builtins
     code += """from numpy import mean as average;""" # use np.mean not average
+    code += """from numpy import prod as product;""" # use np.prod not product
    #code += """from mystic.math.measures import spread, variance, mean;"""
     code += """from mystic.math import tolerance as _tol;"""
     code = compile(code, '<string>', 'exec')
